@@ -326,14 +326,29 @@ func List(x any) L {
 	panic(fmt.Sprintf("abs: not a list: %T %v", x, x))
 }
 
+// Spare collects, while a Build is in progress (see exec.State.Build), the
+// full-capacity views of the byte slices handed to the library: each slice
+// is given 8 octets of spare capacity filled with SpareFill, so that a write
+// beyond len (append aliasing) can be observed afterwards.
+var Spare [][]byte
+
+const SpareFill = 0xA5
+
 func GoBytes(x any) []byte {
 	l := List(x)
 	if len(l) == 0 {
 		return nil
 	}
-	out := make([]byte, len(l))
+	full := make([]byte, len(l)+8)
+	for i := range full {
+		full[i] = SpareFill
+	}
+	out := full[:len(l)]
 	for i, b := range l {
 		out[i] = byte(I(b))
+	}
+	if Spare != nil {
+		Spare = append(Spare, full[len(l):])
 	}
 	return out
 }
